@@ -630,7 +630,7 @@ struct VSpec {
 static std::vector<VSpec> value_specs() {
     return {
         {"base",
-         R"({"a":1,"s":"<b>&","f":2.5,"t":true,"u":null,"e":"","ns":"12","z":0,"arr":[1,2],"o":{"k1":[7],"k2":"x","k3":{}},"b":[3,1,{"a":"x"}],"nums":[3,1,2],"strs":["b","a","c"],"g":[{"y":1,"a":2},{"y":2,"a":3},{"y":1,"a":4}],"p":"P{0}-{1}-{2}{3}","q":"<{0}>"})",
+         R"({"a":1,"s":"<b>&","f":2.5,"t":true,"u":null,"e":"","ns":"12","z":0,"arr":[1,2],"o":{"k1":[7],"k2":"x","k3":{}},"b":[3,1,{"a":"x"}],"nums":[3,1,2],"strs":["b","a","c"],"g":[{"y":1,"a":2},{"y":2,"a":3},{"y":1,"a":4}],"p":"P{0}-{1}-{2}{3}","q":"<{0}>","vx":"VX","wv":["W0"]})",
          {}},
         {"wrong-kinds", R"({"a":"text","s":5,"f":-0.5,"t":false,"b":{"x":1,"yy":[2]},"o":[1,2],"nums":[],"strs":"str","g":[],"p":7,"q":"{0}{0}","z":"0"})", {}},
         {"numbers", R"({"a":-3,"f":3.0,"z":1.25,"ns":"-3","nums":[2.5,-1.5,10.25],"b":[0],"o":{},"s":"","p":"","q":"q","g":[{"y":"k","a":1}],"strs":["z"],"e":"e","t":0,"u":7})", {}},
@@ -768,6 +768,7 @@ struct Gen {
             leaves.push_back(var(p, true));
         }
         leaves.push_back(text("plain <text> & {not a tag} "));
+        leaves.push_back(text("<iframe src=\"q\"></iframe><loops>{variable}")); // words that merely start like a tag name are text
         leaves.push_back(math(E({L("1", 1, 0), L("2", 2, 0)}, {"+"})));
         leaves.push_back(math(E({VP(P({"a"})), L("1", 1, 0)}, {"+"})));
         leaves.push_back(math(E({VP(P({"f"})), L("2", 2, 0)}, {"*"}, true)));
@@ -814,16 +815,20 @@ struct Gen {
         leaves.push_back(iif(E({VP(P({"missing"})), L("1", 1, 0)}, {"+"}), {text("T")}, {text("F")}, true, true, 0));
         leaves.push_back(iif(E({VP(P({"f"})), L("2", 2, 0)}, {">"}), {text("big "), math(E({VP(P({"f"})), L("2", 2, 0)}, {"-"}))}, {text("small")}, true, true, 0));
         leaves.push_back(iif(E({VP(P({"t"}))}, {}), {}, {text("only-false")}, false, true, 0));
+        leaves.push_back(iif(E({VP(P({"a"})), L("9", 9, 0)}, {"-"}), {text("T")}, {text("below")}, true, true, 0));
         // inside loops with value "v" (and "w" one level deeper)
         for (auto p : {P({"v"}), P({"v", "a"}), P({"v", "0"}), P({"v", "zz"}), P({"a"})}) {
             loop_leaves.push_back(var(p));
         }
         loop_leaves.push_back(var(P({"v"}), true));
+        loop_leaves.push_back(var(P({"vx"})));      // a root member whose name merely starts with the loop's value name
+        loop_leaves.push_back(var(P({"wv", "0"}))); // same, with the inner loop's name "w" and an index
         loop_leaves.push_back(text(","));
         loop_leaves.push_back(math(E({VP(P({"v"})), L("1", 1, 0)}, {"+"})));
         loop_leaves.push_back(iif(E({VP(P({"v"})), L("1", 1, 0)}, {">"}), {var(P({"v"}))}, {text("-")}, true, true, 0));
         cases = {E({VP(P({"a"})), L("1", 1, 0)}, {"=="}), E({VP(P({"z"}))}, {}), E({L("0", 0, 0)}, {}), E({VP(P({"missing"}))}, {}),
-                 E({VP(P({"f"})), L("2", 2, 0), L("1", 1, 0)}, {">", "&&"}, true), E({VP(P({"s"}))}, {}), E({VP(P({"s"})), L("1", 1, 0)}, {"+"})};
+                 E({VP(P({"f"})), L("2", 2, 0), L("1", 1, 0)}, {">", "&&"}, true), E({VP(P({"s"}))}, {}), E({VP(P({"s"})), L("1", 1, 0)}, {"+"}),
+                 E({VP(P({"a"})), L("9", 9, 0)}, {"-"}) /* below zero: not satisfied */};
     }
     // enumerate templates with <= k nodes; f(body)
     void bodies(int budget, int depth, bool in_loop, int maxlen, const std::function<void(const Body &, int)> &k) {
